@@ -316,6 +316,15 @@ def main(argv=None):
         for ps in per_sub.values():
             ps["distinct_nontrivial"] = len(ps.pop("_nt", ()))
 
+        # an exception that can only be a programming slip inside the
+        # library (never a refusal of an input) is worth a line even where
+        # the property at hand does not make it a violation
+        slips = {k: v for k, v in labels.items() if any(
+            t in k for t in ("NameError", "UnboundLocalError", "ImportError",
+                             "ModuleNotFoundError", "SyntaxError"))}
+        for k, v in sorted(slips.items())[:10]:
+            print("note: %s observed %d times (%s)" % (
+                k.split(":", 1)[1], v, k.split(":", 1)[0]), file=sys.stderr)
         for sig, v in sorted(violations.items()):
             print("VIOLATION property=%s replay=%s" % (prop, v["replay"]))
             print("  signature=%s count=%d detail=%s" % (
